@@ -20,6 +20,7 @@ func TestC01(t *testing.T) {
 	rec.Assume("strings are valid UTF-8; union values are canonical (value of member i is not lexically accepted by an earlier member)")
 	th.WitnessAll(rec)
 	witnessF94(rec)
+	witnessF99(rec)
 	rapid.Check(t, func(rt *rapid.T) {
 		v := th.PickVariant(rt, "vtu", "vtw", "vocc", "voco", "vocu", "voccw", "vtu2")
 		o := model.GenOpts{}
